@@ -6,6 +6,7 @@ import checks_core
 import checks_sexp
 import checks_types
 import checks_problem
+import checks_hist
 
 CHECKS = {
     "C02": (lambda ctx: checks_core.run_core(ctx, "pre"), "model_checking"),
@@ -13,6 +14,10 @@ CHECKS = {
     "C11": (checks_sexp.run, "model_checking"),
     "C06": (checks_types.run, "model_checking"),
     "C05": (checks_problem.run, "model_checking"),
+    "C04": (checks_hist.run_c04, "model_checking"),
+    "C07": (checks_hist.run_c07, "model_checking"),
+    "C10": (checks_hist.run_c10, "model_checking"),
+    "C14": (checks_hist.run_c14, "model_checking"),
 }
 
 
@@ -63,6 +68,35 @@ META["C05"] = {
     "text": "MC_Problem checks that every base problem is well formed, is read back unchanged from its rendering in every "
             "object-list style, and that every single-point corruption is ill formed; the rendered problems and random "
             "ones are parsed by the library and TLC judges acceptance (iff WFProblem) and the parsed content."}
+HIST_NOTE = ("Trace validation decides only the executions explored; the exhaustive part is the plan family of the "
+             "micro-domain. Trusted base: projection through serialize() + independent reader, domain digest function.")
+META["C04"] = {
+    "engine": "M+G+V", "design_ref": "DESIGN.md section 6 (C04)", "note": HIST_NOTE,
+    "technique": "TLC model checking that the incremental plan executor refines Plan!Run (chain, refusal rule; as-found variants "
+                 "refuted) + TLC-generated plans replayed through TrajectoryExporter + trace validation of random plans",
+    "text": "MC_Plan grows every plan call by call and checks the incremental trajectory against the declarative run, the chain "
+            "and the refusal rule; every plan is replayed through TrajectoryExporter.parse_plan/export and Operator.apply and "
+            "TLC recomputes each triplet; random plans over random typed domains are trace-validated."}
+META["C07"] = {
+    "engine": "V(+M)", "design_ref": "DESIGN.md section 6 (C07)", "note": HIST_NOTE + " Thread interleavings are not explored "
+            "by this check (the shared-signature mutation that made them matter was removed by a fix: commit).",
+    "technique": "trace validation of API-call histories against the PddlApi store: after every call TLC checks that every live "
+                 "handle (states, runs, domain digest) still has its stored value",
+    "text": "Random call histories over one shared domain are recorded with a snapshot of every live handle after each call; "
+            "the trace specification checks store'[h] = store[h] for all handles and that each call's result equals the "
+            "specification's, so aliasing between an earlier result and a later call is a rejected trace."}
+META["C10"] = {
+    "engine": "G+V", "design_ref": "DESIGN.md section 6 (C10)", "note": HIST_NOTE,
+    "technique": "trace validation: exported trajectory text read by an independent reader and the Observation parsed back are "
+                 "compared by TLC with the triplets of the run (PddlApi store)",
+    "text": "For TLC-generated and random plans the exported trajectory text and the observation parsed from it (with and "
+            "without the problem) are judged by TLC against the run's triplets: alternation, headers, calls, states, chain."}
+META["C14"] = {
+    "engine": "V(+M)", "design_ref": "DESIGN.md section 6 (C14)", "note": HIST_NOTE,
+    "technique": "trace validation of ==, copy and serialization of states reached through different operation sequences "
+                 "against the specification's state equality",
+    "text": "States reached by parsing, successors, copies and re-parsed trajectories are compared with ==, copied and "
+            "snapshotted; TLC judges every answer with StEq on the stored abstract values and every snapshot for independence."}
 NOT_YET = {}
 
 
